@@ -472,12 +472,15 @@ class CorpusHarness(Harness):
                         key = "content-differs" + ("-after-kill" if how.startswith("killed") else "")
                         # the open known finding is exactly this: cut *inside the last line* (all earlier lines complete, the last one
                         # partial but not empty), so that the line count still matches; anything else is a different violation
-                        if how.startswith("killed") and not cfg["declare_uncompressed"] and arch_name and data and content.startswith(data) and not data.endswith(b"\n") and data.count(b"\n") == content.count(b"\n") - 1:
-                            key = "partial-decompression-accepted-undeclared-size"
-                        elif how.startswith("killed") and killed_at_table_removal and not cfg["declare_uncompressed"]:
+                        # (single-file archives - .bz2 / .gz / .zst - are decompressed under a temporary name since the repair; what is left
+                        # open concerns archives that are *extracted*: tar and zip members are written in place)
+                        extracted = cfg["format"] in (".zip", ".tar", ".tar.gz", ".tgz", ".tar.bz2")
+                        if extracted and how.startswith("killed") and not cfg["declare_uncompressed"] and arch_name and data and content.startswith(data) and not data.endswith(b"\n") and data.count(b"\n") == content.count(b"\n") - 1:
+                            key = "partial-extraction-accepted-undeclared-size"
+                        elif extracted and how.startswith("killed") and killed_at_table_removal and not cfg["declare_uncompressed"]:
                             # second open known finding: the table of a file that failed the line-count check survives when the
                             # process is killed right at its removal; being newer than the file it vouches for it from then on
-                            key = "rejected-file-vouched-for-by-table-that-survived-kill-at-removal"
+                            key = "rejected-extracted-file-vouched-for-by-table-that-survived-kill-at-removal"
                         bad("result", key, f"preparation returned but [{doc_name}] ({len(data)} bytes) differs from the published content ({len(content)} bytes) at byte {firstdiff}; sizes declared: compressed={cfg['declare_compressed']} uncompressed={cfg['declare_uncompressed']}; {how}; initial {init}")
                     # the offset table positions readers exactly like skipping line by line
                     total_lines = data.count(b"\n")
